@@ -150,7 +150,8 @@ CLAIMED = {
         technique="ownership typestate (path-sensitive) of functor parameters over clang CFGs of parallel_invoke and the task-set entry points",
         text="Each functor of parallel_invoke is forwarded exactly once (first to schedule, rest to the recursion; base case invoked on the caller); every "
              "task-set scheduling entry point runs its functor inline once or hands it to the pool once on every path, never both.",
-        note="completion (C02) and delivery by the pool (C01) are separate clauses",
+        note="delivery by the pool (C01) is a separate clause; 'finished once wait() returns' is decided as the wait-zero clause shared with C02 "
+             "(wait returns only on an acquire observation of a zero counter)",
     ),
     "C12": dict(
         technique="flag-conditioned must-pass-through (wait => task-set wait) over clang CFGs + compile-time width witnesses read from the AST",
@@ -244,7 +245,8 @@ CLAIMED = {
         technique="dominance of slot accesses by the acquire load of the other side's cursor + must-pass-through release store of the own cursor (clang CFG)",
         text="Producer forms construct only after acquire(head_) and publish by release store of tail_ on every path; consumer forms consume only after "
              "acquire(tail_), destroy once, and free the slot by release store of head_; neither side writes the other's cursor; destructor destroys the rest.",
-        note="FIFO order and capacity arithmetic are not decided",
+        note="FIFO order is not decided; of the capacity arithmetic only the batch counts are (evaluated for every cursor pair of every instantiated slot "
+             "count, powers of two and not); the destructor's drain must walk head != tail",
     ),
     "C36": dict(
         technique="fence must-pass rule, CAS-order/result-use rule, who-may-write rule on the two cursors (clang CFG)",
@@ -279,7 +281,9 @@ CLAIMED = {
         text="Under the property's precondition (all N workers parked, S tasks submitted; N in {1,2,8,9,64}) every hand-over to a queue/ring is followed "
              "by a wake on all feasible paths; the count handed to a group futex wake is the population of the full sleep mask; threads-per-steal-ring "
              "equals threads-per-wake-group. Unevaluable conditions are inconclusive (exit 2).",
-        note="latency itself and the worker-side enter-sleep race are not decided; the claim that toWake >= 1 under the precondition is assumed",
+        note="latency itself and the worker-side enter-sleep race are not decided. Also decided: the idle count is seeded with the number of threads started, "
+             "the claim result is tested as 'negative = nobody', and a claim of one sleeper must be delivered to it -- the last one is violated by "
+             "PoolWakeState::claimAndWakeOne (KNOWN-FINDING, reproduced by triage/probe_c07_ghost_sleeper.cpp)",
     ),
     "C25": dict(
         technique="finite-state storage-balance analysis of the handle pointer + who-may-construct + loop-bound rules (clang CFG)",
